@@ -34,6 +34,17 @@ R04h a handler unregistered earlier in the tick is not resumed: in tick_iterate_
      iterated copy is guarded by a test that the interrupt is still the registered one.
 Decides these orderings and, for cancel/force, every interleaving of requests with the visitor's yields over the boolean
 abstraction; the timing of End block relative to a tick is decided by R04c/R04d only.
+R04i a handler belongs to the blocks it was registered in, not only to the blocks around its node in the method text: _register_interrupt
+     records the blocks of the execution path on the Interrupt (a walk over `self.sep`), and _abort_block_interrupts tests that record
+     against the ended block in addition to the lexical descendants - a Watch/Alarm in the body of a macro that was called inside a
+     Block is otherwise never ended with the Block (the Alarm keeps firing for the rest of the run).
+R04j a handler never parks for good: the wait on trailing whitespace (`while node.has_only_trailing_whitespace: yield`) is meant for
+     the main program at the end of the method; reached by an interrupt handler it keeps a Watch from completing and an Alarm from
+     re-arming. Open known finding: passing such a line in a handler contradicts C02's last sentence (R02b), so the repair needs a
+     design decision.
+R04k an Alarm that re-arms concludes the waiting Watches/Alarms of its body (through _abort_block_interrupts, which records Cancelled
+     for a handler that was still waiting): dropped without a final state their run-log items stay open and cancel/force requests
+     for them are accepted and act on the reset nodes of the next invocation.
 """
 from __future__ import annotations
 
@@ -269,6 +280,11 @@ def run(ctx) -> None:
     unreg_loops = [n for n in ga.nodes if n.kind == "for" and "get_child_nodes" in norm(n.ast.iter) and apar in norm(n.ast.iter)
                    and any(isinstance(c, ast.Call) and call_attr(c) == "_unregister_interrupt" and c.args
                            and norm(c.args[0]) == norm(n.ast.target) for c in ast.walk(n.ast))]
+    ab = pi.methods.get("_abort_block_interrupts")
+    if ab is not None and any(isinstance(c, ast.Call) and call_attr(c) == "_unregister_interrupt" for c in ast.walk(ab.node)) \
+            and any(isinstance(x, ast.Call) and call_attr(x) == "get_child_nodes" for x in ast.walk(ab.node)):
+        # the shared helper removes (and concludes) the handlers of everything below the node it is given
+        unreg_loops += [n for n in ga.nodes if any(call_attr(c) == "_abort_block_interrupts" and c.args and norm(c.args[0]) == apar for c in n.calls())]
     inst = "visit_AlarmNode: descendants' interrupts are unregistered before the recursive reset"
     if unreg_loops and all(any(ga.dominates(l, r) for l in unreg_loops) for r in resets):
         ctx.ok("R04g", inst)
@@ -276,6 +292,57 @@ def run(ctx) -> None:
         ctx.fail("R04g", va, resets[0].ast, inst, "the reset clears the state (activated, cancelled, child index) of the Watches and Alarms in the "
                  "body while their handlers stay registered: a stale handler continues in the middle of the reset body, a cancelled "
                  "inner Alarm runs anyway, and an inner handler can capture the outer Alarm")
+    # ---- R04i
+    ctx.rule("R04i", "interrupts are ended with the blocks they were registered in")
+    reg = pi.methods["_register_interrupt"]
+    ab_ = pi.methods["_abort_block_interrupts"]
+    ctx.analysed(reg)
+    ctx.analysed(ab_)
+    rec_attrs = set()
+    for x in ast.walk(reg.node):
+        # <interrupt>.<attr>.add(...) / = ... inside a loop over self.sep...
+        if isinstance(x, ast.For) and "sep" in norm(x.iter):
+            for c in ast.walk(x):
+                if isinstance(c, ast.Call) and call_attr(c) in ("add", "append") and isinstance(c.func.value, ast.Attribute):
+                    rec_attrs.add(c.func.value.attr)
+    inst = "_register_interrupt records the blocks of the execution path and _abort_block_interrupts consults them"
+    used = [a for a in rec_attrs if any(isinstance(y, ast.Attribute) and y.attr == a for y in ast.walk(ab_.node))]
+    blockish = any(isinstance(y, ast.Call) and isinstance(y.func, ast.Name) and y.func.id == "isinstance" and "BlockNode" in norm(y)
+                   for y in ast.walk(reg.node))
+    if used and blockish:
+        ctx.ok("R04i", inst, {"rule": "R04i", "attribute": used[0]})
+    else:
+        ctx.fail("R04i", ab_, ab_.node, inst, "a block's end aborts the handlers of its lexical descendants only: a Watch or Alarm registered by "
+                 "`Call macro` inside the block (its node sits in the macro definition) survives the block - the Watch body runs after "
+                 "the block has ended, the Alarm fires for the rest of the run")
+    # ---- R04j
+    ctx.rule("R04j", "an interrupt handler does not park on trailing whitespace")
+    for vn in ("visit_BlankNode", "visit_CommentNode"):
+        v_ = pi.methods[vn]
+        ctx.analysed(v_)
+        for w in ast.walk(v_.node):
+            if isinstance(w, ast.While) and "has_only_trailing_whitespace" in norm(w.test):
+                inst = f"{vn}: the wait on trailing whitespace is not taken by an interrupt handler"
+                if "_in_interrupt" in norm(w.test):
+                    ctx.ok("R04j", inst)
+                else:
+                    ctx.fail("R04j", v_, w, inst, "`Alarm: X > 1 / Mark: A` as the last lines of a method followed by a blank or comment line: the "
+                             "handler parks on that line for ever, the Alarm never re-arms (its body runs once); a Watch there never "
+                             "completes, a macro called from a handler never returns")
+    # ---- R04k
+    ctx.rule("R04k", "an Alarm that re-arms concludes the waiting watches and alarms of its body")
+    marks_cancel = any(isinstance(c, ast.Call) and call_attr(c) == "mark_cancelled" for c in ast.walk(ab_.node))
+    via_helper = [n for n in ga.nodes if any(call_attr(c) == "_abort_block_interrupts" and c.args and norm(c.args[0]) == apar for c in n.calls())]
+    inline = [n for n in ga.nodes if any(call_attr(c) == "mark_cancelled" for c in n.calls())]
+    inst = "visit_AlarmNode: the children dropped at re-arm get a final state"
+    if (via_helper and marks_cancel and all(any(ga.dominates(h_, r) for h_ in via_helper) for r in resets)) or \
+            (inline and all(any(ga.dominates(h_, r) for h_ in inline) for r in resets)):
+        ctx.ok("R04k", inst)
+    else:
+        ctx.fail("R04k", va, resets[0].ast, inst, "the handlers of the body's watches and alarms are dropped without a final state: the item of a "
+                 "Watch that was still waiting stays started, cancellable and forcible with no handler - a force is accepted and never "
+                 "proceeds, a cancel sets the flag on the reset node and silently cancels the next invocation's Watch")
+
     # ---- R04h
     ctx.rule("R04h", "an interrupt unregistered earlier in the tick is not resumed")
     ts = pi.methods["tick_iterate_subticks"]
